@@ -190,6 +190,7 @@ func memTotal() uint64 {
 }
 
 func (w *watchdog) loop(grace time.Duration, memLimit uint64, onMem func()) {
+	var memAtCancel uint64
 	for {
 		time.Sleep(20 * time.Millisecond)
 		w.mu.Lock()
@@ -198,11 +199,13 @@ func (w *watchdog) loop(grace time.Duration, memLimit uint64, onMem func()) {
 		if armed && time.Now().After(dl) {
 			if !w.fired.Load() {
 				w.fired.Store(true)
+				memAtCancel = memTotal()
 				cancel()
 			} else if time.Now().After(dl.Add(grace)) {
-				// neither finished nor cancellable: `resource:mem` if it sits on most of the
-				// memory budget (it was allocating, only slowly on a loaded machine)
-				if memTotal() > memLimit*2/3 {
+				// neither finished nor cancellable. `resource:mem` if it kept allocating all the
+				// while (above 1 GiB and at least 512 MiB more than when it was cancelled: on
+				// its way to the limit, only slowly on a loaded machine), else `resource:hang`
+				if m := memTotal(); m > 1<<30 && m > memAtCancel+(512<<20) {
 					onMem()
 				}
 				w.hang()
